@@ -136,8 +136,12 @@ CHECKS = {
          '(C12_lines); the filter is idempotent. Tie: model filter = LessLexer.token on the raw token streams of all sources and variants; '
          'oracle: every program of the generators of C02 C03 C05 C07 C19 and every file of test/less (lexer-guided mutation) under k layouts '
          '(whitespace runs replaced incl. LF/CRLF/tabs, 25 hostile comment bodies at statement boundaries, last semicolons toggled) compiles to '
-         'byte-identical CSS.'),
-   note=BASE_NOTE + ' The regular expressions that cut text into lexemes and comments are validated by the hostile bodies, not proved.'),
+         'byte-identical CSS. Since the second round also on TEXT: a character-level lexer model (backtracking regex matcher + ply loop + the 45 '
+         'rule functions) whose rules are regenerated from the lexer object of the source tree agrees with ply token by token (type, value, line, '
+         'lexer state, in_property_decl; about 70 000 tokens per quick run over all fixtures and randomly damaged texts), and the filtered stream '
+         'agrees with LessLexer.token; theorems in Props/C12Lex.lean (exact partition of the input into lexemes, no rule nullable, never stuck, '
+         'line numbers monotone and bounded by the line feeds consumed, blanks only after significant tokens, injected ; only before }).'),
+   note=BASE_NOTE + ' That Python re agrees with the regex model on the constructs used is exercised on the corpus, not proved; \\w on non-ASCII characters is approximated.'),
  'C01': dict(category='proof',
    technique='Lean 4: plain-sheet identity theorem on the nesting model, resting on the theorems of C02/C08/C11/C12; same-canonicaliser oracle on source and output',
    text=('C01_rules: a sheet of plain rules (any number, any selector token lists, any declaration lists) compiles in the model to exactly '
@@ -170,7 +174,10 @@ CHECKS = {
          'of input, stray }, missing {, unclosed ( - is never accepted (C15_reject_*). Tie: the driver run on the regenerated LALR tables '
          'agrees with the real parser on accept/reject and on the token type and line of the first diagnostic for every generated program and '
          'every single corruption of it. Oracle: all corruption classes raise CompilationError/SyntaxError through lesscpy.compile, the diagnostic '
-         'names the line that contains the token, the CLI reports them.'),
+         'names the line that contains the token, the CLI reports them. Since the second round the verdict is also computed from TEXT (regenerated '
+         'lexer rules -> modelled lexer and filter -> LALR driver on the regenerated tables) and compared with the compiler on all fixtures and '
+         'randomly damaged texts; a catalogue of undefined-variable sites (values, selectors, strings, media conditions and their expressions, '
+         'import paths, mixin arguments, guards) must each raise.'),
    note=BASE_NOTE + ' Rejection of non-balance corruptions (missing colon, illegal character, undefined variable) is exercised, not proved; that PLY implements LALR parsing of its tables is assumed and compared on every corrupted input.'),
  'C16': dict(category='proof',
    technique='Lean 4 theorems on a hand-written state-machine model of ldirectory (file tree, mtimes, logical clock, compiler as a parameter) + step-wise correspondence on command-line histories',
